@@ -23,6 +23,7 @@
 #include <cerrno>
 #include <csignal>
 #include <cstring>
+#include <fnmatch.h>
 #include <memory>
 
 using namespace llbuild;
@@ -52,6 +53,7 @@ struct Rec {
   uint64_t defHash = 0;
   std::map<std::string, FileState> ins, outs;   // declared inputs + discovered reads; outputs
   std::vector<std::string> discovered;
+  std::map<std::string, std::string> trees;     // directory(-structure) inputs: digest of what the node covers
 };
 
 struct Run;
@@ -110,6 +112,7 @@ struct Run {
   std::vector<std::string> log;
   RunResult res;
   bool verdict = false;
+  int treeEdits = 0, treeReruns = 0;
   int nullBuilds = 0, skippedCommands = 0, descEdits = 0, sourceEdits = 0, failuresInjected = 0, discoveredSeen = 0;
   bool anyMixed = false;
 
@@ -151,6 +154,88 @@ struct Run {
     s.size = sb.size;
     s.type = (int)sb.type;
     return s;
+  }
+
+  // attributes of a node in the current description
+  std::string nodeAttr(const std::string& node, const std::string& key) const {
+    auto it = desc.nodeAttrs.find(node);
+    if (it == desc.nodeAttrs.end()) return "";
+    for (auto& kv : it->second)
+      if (kv.first == key) return kv.second;
+    return "";
+  }
+  std::vector<std::string> nodeFilters(const std::string& node) const {
+    // stored as a YAML flow list of double-quoted patterns
+    std::vector<std::string> out;
+    std::string v = nodeAttr(node, "content-exclusion-patterns");
+    size_t pos = 0;
+    while ((pos = v.find('"', pos)) != std::string::npos) {
+      size_t end = v.find('"', pos + 1);
+      if (end == std::string::npos) break;
+      out.push_back(v.substr(pos + 1, end - pos - 1));
+      pos = end + 1;
+    }
+    return out;
+  }
+  bool nodeIsStructure(const std::string& node) const { return nodeAttr(node, "is-directory-structure") == "true"; }
+
+  // What a directory-tree (or directory-structure) node observes beneath `path`: names, types and, for tree
+  // nodes, the stat information of every entry; names matching an exclusion pattern are invisible at every level.
+  void treeWalk(const std::string& full, const std::vector<std::string>& filters, bool structure, bool root, std::string* out) {
+    simfs::InodeP ino;
+    if (simfs::fs().lookup(full, true, &ino) != 0) {
+      *out += "<missing>";
+      return;
+    }
+    simfs::StatBuf sb;
+    simfs::fs().fillStat(ino, &sb);
+    auto statText = [&](const simfs::StatBuf& b) {
+      return std::to_string(b.ino) + ":" + std::to_string(b.mtime_ns) + ":" + std::to_string(b.size) + ":" + std::to_string(b.mode);
+    };
+    if (ino->type != simfs::Inode::Dir) {
+      *out += structure ? "f:" + std::to_string(sb.mode) : "f:" + statText(sb);
+      return;
+    }
+    // a directory's own stat information is part of a tree node (except for a filtered root, whose listing carries names only)
+    // (the root's own stat is compared separately: a filtered listing of the root carries names only)
+    if (structure) *out += "d:" + std::to_string(sb.mode);
+    else if (!root) *out += "d:" + statText(sb);
+    else *out += "d";
+    *out += "{";
+    for (auto& e : ino->entries) {
+      bool excluded = false;
+      for (auto& f : filters)
+        if (fnmatch(f.c_str(), e.first.c_str(), 0) == 0) excluded = true;
+      if (excluded) continue;
+      *out += e.first + "=";
+      treeWalk(full + "/" + e.first, filters, structure, false, out);
+      *out += ";";
+    }
+    *out += "}";
+  }
+  uint64_t defHashWithNodes(const Cmd& c) const {
+    util::Hasher h;
+    h.u64(c.definitionHash());
+    for (auto& i : c.inputs)
+      if (isDirNode(i)) {
+        h.str(nodeAttr(i, "is-directory-structure"));
+      }
+    return h.get();
+  }
+  std::string treeDigest(const std::string& node) {
+    std::string p = node;
+    while (!p.empty() && p.back() == '/') p.pop_back();
+    std::string out;
+    treeWalk(abs(p), nodeFilters(node), nodeIsStructure(node), true, &out);
+    return out;
+  }
+  // the root directory's own stat information counts for an unfiltered directory-tree node only
+  std::string treeRootStat(const std::string& node) {
+    if (nodeIsStructure(node) || !nodeFilters(node).empty()) return "-";
+    std::string p = node;
+    while (!p.empty() && p.back() == '/') p.pop_back();
+    FileState st = stateOf(p);
+    return std::to_string(st.exists) + ":" + std::to_string(st.ino) + ":" + std::to_string(st.mtime) + ":" + std::to_string(st.size);
   }
 
   bool readSim(const std::string& path, std::string* out) {
@@ -407,6 +492,7 @@ void Run::opBuild(const Json& op) {
   std::vector<const Cmd*> order;
   reachable(roots, &order);
   std::map<std::string, bool> predictRun, predictFail;
+  std::set<std::string> soft;   // commands for which a re-run is allowed but not required in this build
   bool exact = true;   // the iff direction is only asserted when the model is exact for this build
   for (const Cmd* c : order) {
     if (c->tool != "shell") {
@@ -433,13 +519,19 @@ void Run::opBuild(const Json& op) {
     if (rit == recs.end() || !rit->second.ok) run = true;
     else {
       Rec& r = rit->second;
-      if (r.defHash != c->definitionHash() || c->always || upstreamRan) run = true;
+      if (r.defHash != defHashWithNodes(*c) || c->always || upstreamRan) run = true;
       for (auto& o : c->outputs)
         if (!isVirtualNode(o) && !isDirNode(o) && stateOf(o) != r.outs[o]) run = true;
       for (auto& i : c->inputs) {
         if (isVirtualNode(i)) continue;
         if (isDirNode(i)) {
-          exact = false;
+          // a changed filter list is an edit of the description: whether the consumer re-runs when the set of
+          // covered entries stays the same is not prescribed; when the covered set changes it must
+          if (r.trees[i + "#filters"] != nodeAttr(i, "content-exclusion-patterns")) soft.insert(c->name);
+          if (!r.trees.count(i) || r.trees[i] != treeDigest(i)) run = true;
+          // root stat: only comparable when the node was and is an unfiltered tree node
+          else if (r.trees[i + "#root"] != "-" && treeRootStat(i) != "-" && r.trees[i + "#root"] != treeRootStat(i)) run = true;
+          else if ((r.trees[i + "#root"] == "-") != (treeRootStat(i) == "-")) exact = false;
           continue;
         }
         if (!r.ins.count(i) || stateOf(i) != r.ins[i]) run = true;
@@ -580,12 +672,16 @@ void Run::opBuild(const Json& op) {
     bool want = predictRun[c->name];
     if (did) anyRan = true;
     else anySkipped = true;
+    bool hasDir = false;
+    for (auto& i : c->inputs)
+      if (isDirNode(i)) hasDir = true;
+    if (hasDir && did && buildNo > 1) treeReruns++;
     if (want && !did && !predictFail[c->name] && actuallyFailed.empty() && !anyPredictedFailure) {
-      std::string why = !recs.count(c->name) ? "never ran successfully" : recs[c->name].defHash != c->definitionHash() ? "its definition changed" : "an input or output changed";
-      viol("C09.2", "command " + c->name + " was not re-executed in build " + std::to_string(buildNo) + " although " + why);
+      std::string why = !recs.count(c->name) ? "never ran successfully" : recs[c->name].defHash != defHashWithNodes(*c) ? "its definition (or the type/filters of one of its input nodes) changed" : "an input or output changed";
+      viol(hasDir ? "C12.1" : "C09.2", "command " + c->name + " was not re-executed in build " + std::to_string(buildNo) + " although " + why);
     }
-    if (!want && did && exact && !c->always)
-      viol("C09.3", "command " + c->name + " was re-executed in build " + std::to_string(buildNo) + " although neither its definition nor any input or output changed");
+    if (!want && did && exact && !c->always && !soft.count(c->name))
+      viol(hasDir ? "C12.2" : "C09.3", "command " + c->name + " was re-executed in build " + std::to_string(buildNo) + " although neither its definition nor any input or output changed");
   }
   if (anyRan && anySkipped && buildNo > 1) anyMixed = true;
   if (!anyRan && buildNo > 1 && ok) nullBuilds++;
@@ -627,9 +723,15 @@ void Run::opBuild(const Json& op) {
     if (ranOk.count(c->name) && !(failFlags.count(c->name) && (failFlags[c->name] == "baddeps" || failFlags[c->name] == "baddeps2"))) {
       Rec r;
       r.ok = true;
-      r.defHash = c->definitionHash();
-      for (auto& i : c->inputs)
-        if (!isVirtualNode(i) && !isDirNode(i)) r.ins[i] = stateOf(i);
+      r.defHash = defHashWithNodes(*c);
+      for (auto& i : c->inputs) {
+        if (isDirNode(i)) {
+          r.trees[i] = treeDigest(i);
+          r.trees[i + "#root"] = treeRootStat(i);
+          r.trees[i + "#filters"] = nodeAttr(i, "content-exclusion-patterns");
+        }
+        else if (!isVirtualNode(i)) r.ins[i] = stateOf(i);
+      }
       for (auto& o : c->outputs)
         if (!isVirtualNode(o) && !isDirNode(o)) r.outs[o] = stateOf(o);
       if (!c->deps.empty()) {
@@ -678,6 +780,37 @@ void Run::execute() {
         descEdits++;
         ev("edit-description");
       }
+    } else if (kind == "tree") {
+      std::string tk = op.gets("kind");
+      std::string p = abs(util::unhex(op.gets("path")));
+      std::string to = abs(util::unhex(op.gets("to")));
+      auto& F = simfs::fs();
+      if (tk == "add" || tk == "edit") {
+        F.mkdirs(p.substr(0, p.rfind('/')));
+        F.writeFile(p, util::unhex(op.gets("content")));
+      } else if (tk == "rm") {
+        F.removeAll(p);
+      } else if (tk == "rename") {
+        F.mkdirs(to.substr(0, to.rfind('/')));
+        F.rename(p, to);
+      } else if (tk == "mkdir") {
+        F.mkdirs(p);
+      } else if (tk == "touch") {
+        F.setMtime(p, sim::tick_ns());
+      } else if (tk == "retype") {
+        simfs::StatBuf sb;
+        if (F.stat(p, false, &sb) == 0) {
+          bool wasDir = sb.type == simfs::Inode::Dir;
+          F.removeAll(p);
+          if (wasDir) F.writeFile(p, "now a file\n");
+          else F.mkdirs(p);
+        }
+      } else if (tk == "symlink") {
+        F.removeAll(p);
+        F.symlink(util::unhex(op.gets("content")), p);
+      }
+      treeEdits++;
+      ev("tree-" + tk + " " + util::printable(p, 60));
     } else if (kind == "fail") {
       failFlags[util::unhex(op.gets("cmd"))] = op.gets("mode", "exit");
       ev("fail-flag " + util::unhex(op.gets("cmd")) + " " + op.gets("mode", "exit"));
@@ -825,7 +958,103 @@ struct Gen {
       desc.targets[""] = top;
     }
     if (products.size() > 2) desc.targets["second"] = {products[rng.below(products.size())]};
+    if (property == "C12") buildTree();
     desc.normalise();
+  }
+
+  // ---- C12: a source tree consumed through a directory-tree / directory-structure node
+  std::set<std::string> treeFiles, treeDirs;
+  std::string pickName(bool dirName) {
+    static const char* fn[] = {"a.txt", "b.txt", "c.c", "d.tmp", "skipme", "e.h", "f.tmp", "g", "skip.2", "h.txt"};
+    static const char* dn[] = {"sub", "inc", "x", "deep", "skipdir", "y.tmp"};
+    return dirName ? dn[rng.below(6)] : fn[rng.below(10)];
+  }
+  void buildTree() {
+    treeDirs.insert("tree");
+    int nd = (int)rng.range(0, 4);
+    for (int i = 0; i < nd; i++) {
+      std::vector<std::string> ds(treeDirs.begin(), treeDirs.end());
+      std::string parent = ds[rng.below(ds.size())];
+      if (std::count(parent.begin(), parent.end(), '/') >= 3) continue;
+      treeDirs.insert(parent + "/" + pickName(true));
+    }
+    int nf = (int)rng.range(1, 8);
+    for (int i = 0; i < nf; i++) {
+      std::vector<std::string> ds(treeDirs.begin(), treeDirs.end());
+      std::string f = ds[rng.below(ds.size())] + "/" + pickName(false);
+      if (treeDirs.count(f)) continue;
+      treeFiles.insert(f);
+      sources[f] = "tree file v" + std::to_string(counter++) + "\n";
+    }
+    Cmd t;
+    t.name = "T0";
+    t.salt = rng.below(1000);
+    t.inputs = {"tree/"};
+    if (rng.chance(300)) t.inputs.push_back(sources.begin()->first.substr(0, 5) == "tree/" ? "tree/" : sources.begin()->first);
+    std::sort(t.inputs.begin(), t.inputs.end());
+    t.inputs.erase(std::unique(t.inputs.begin(), t.inputs.end()), t.inputs.end());
+    t.outputs = {"tout0"};
+    desc.cmds.push_back(t);
+    if (rng.chance(350)) desc.nodeAttrs["tree/"].push_back({"is-directory-structure", "true"});
+    if (rng.chance(400)) desc.nodeAttrs["tree/"].push_back({"content-exclusion-patterns", rng.chance(500) ? "[\"*.tmp\", \"skip*\"]" : "[\"*.tmp\"]"});
+    desc.targets[""].push_back("tout0");
+  }
+  Json treeOp() {
+    Json op = Json::obj().set("op", "tree");
+    std::vector<std::string> fs(treeFiles.begin(), treeFiles.end()), ds(treeDirs.begin(), treeDirs.end());
+    unsigned k = (unsigned)rng.below(100);
+    if (k < 25 || fs.empty()) {
+      std::string f = ds[rng.below(ds.size())] + "/" + pickName(false);
+      if (treeDirs.count(f)) f += "x";
+      treeFiles.insert(f);
+      return op.set("kind", "add").set("path", util::hex(f)).set("content", util::hex("new v" + std::to_string(counter++) + "\n"));
+    }
+    if (k < 45) {
+      std::string f = fs[rng.below(fs.size())];
+      return op.set("kind", "edit").set("path", util::hex(f)).set("content", util::hex("edited v" + std::to_string(counter++) + "\n"));
+    }
+    if (k < 55) {
+      std::string f = fs[rng.below(fs.size())];
+      return op.set("kind", "touch").set("path", util::hex(f));
+    }
+    if (k < 68) {
+      std::string f = fs[rng.below(fs.size())];
+      treeFiles.erase(f);
+      return op.set("kind", "rm").set("path", util::hex(f));
+    }
+    if (k < 78) {
+      std::string f = fs[rng.below(fs.size())];
+      std::string to = ds[rng.below(ds.size())] + "/" + pickName(false) + "r";
+      if (treeFiles.count(to) || treeDirs.count(to)) return op.set("kind", "touch").set("path", util::hex(f));
+      treeFiles.erase(f);
+      treeFiles.insert(to);
+      return op.set("kind", "rename").set("path", util::hex(f)).set("to", util::hex(to));
+    }
+    if (k < 86) {
+      std::string d = ds[rng.below(ds.size())] + "/" + pickName(true) + "n";
+      treeDirs.insert(d);
+      return op.set("kind", "mkdir").set("path", util::hex(d));
+    }
+    if (k < 93) {
+      // retype a file into a directory (or an empty-ish directory into a file)
+      std::string f = fs[rng.below(fs.size())];
+      treeFiles.erase(f);
+      treeDirs.insert(f);
+      return op.set("kind", "retype").set("path", util::hex(f));
+    }
+    // remove a whole sub-directory
+    if (ds.size() > 1) {
+      std::string d = ds[1 + rng.below(ds.size() - 1)];
+      for (auto it = treeFiles.begin(); it != treeFiles.end();)
+        if (it->compare(0, d.size() + 1, d + "/") == 0) it = treeFiles.erase(it);
+        else ++it;
+      for (auto it = treeDirs.begin(); it != treeDirs.end();)
+        if (*it == d || it->compare(0, d.size() + 1, d + "/") == 0) it = treeDirs.erase(it);
+        else ++it;
+      return op.set("kind", "rm").set("path", util::hex(d));
+    }
+    std::string f = fs[rng.below(fs.size())];
+    return op.set("kind", "touch").set("path", util::hex(f));
   }
 
   // one description edit of a random kind; returns a tag naming the kind
@@ -927,6 +1156,29 @@ struct Gen {
     std::vector<std::string> flagged;
     for (int i = 0; i < nOps; i++) {
       unsigned roll = (unsigned)rng.below(1000);
+      if (property == "C12" && rng.chance(650)) {
+        int n = (int)rng.range(1, 2);
+        for (int t = 0; t < n; t++) hist.push(treeOp());
+        if (rng.chance(150)) {
+          // change what the node covers: type or filters
+          auto& attrs = desc.nodeAttrs["tree/"];
+          if (rng.chance(500)) {
+            bool had = false;
+            for (auto it = attrs.begin(); it != attrs.end(); ++it)
+              if (it->first == "is-directory-structure") { attrs.erase(it); had = true; break; }
+            if (!had) attrs.push_back({"is-directory-structure", "true"});
+          } else {
+            bool had = false;
+            for (auto it = attrs.begin(); it != attrs.end(); ++it)
+              if (it->first == "content-exclusion-patterns") { attrs.erase(it); had = true; break; }
+            if (!had) attrs.push_back({"content-exclusion-patterns", "[\"skip*\"]"});
+          }
+          hist.push(Json::obj().set("op", "desc").set("kind", "node-attr").set("desc", desc.toJson()));
+        }
+        addBuild();
+        if (rng.chance(300)) addBuild();
+        continue;
+      }
       if (roll < 300) {
         addBuild();
       } else if (roll < 560) {
@@ -1063,7 +1315,10 @@ public:
     else if (p == "C09") run.res.nontrivial = run.anyMixed || run.nullBuilds > 0;
     else if (p == "C10") run.res.nontrivial = run.failuresInjected > 0;
     else if (p == "C11") run.res.nontrivial = run.discoveredSeen > 0;
+    else if (p == "C12") run.res.nontrivial = run.treeEdits > 0 && run.treeReruns > 0;
     else run.res.nontrivial = run.buildNo >= 2;
+    c["tree_edits"] += (uint64_t)run.treeEdits;
+    c["tree_consumer_reruns"] += (uint64_t)run.treeReruns;
     run.res.sample = "commands=" + std::to_string(run.desc.cmds.size()) + " builds=" + std::to_string(run.buildNo) + " lanes=" + std::to_string(run.lanes) +
                      " desc_edits=" + std::to_string(run.descEdits) + " failures=" + std::to_string(run.failuresInjected);
     simos::reset();
